@@ -41,7 +41,8 @@ def verify_functions(keys, *, prop=None, repo='/repo', scope=None, timeout_ms=10
             # ---- pass 2: unbounded, invariants fixed to the finite-scope survivors
             ctx_u = Ctx(False, enums=dict(R.enums))
             e2 = Exec(R, ctx_u, index, prop=prop, timeout_ms=timeout_ms, houdini=dict(e1.houdini))
-            install_axioms(e2)
+            install_axioms(e2, out.setdefault('lemmas', {}))
+            e2.skip_names = {n for n, ob in e1.obligations.items() if ob.status == 'refuted'}
             e2.verify_function(fkey)
             for name, ob in e1.obligations.items():
                 u = e2.obligations.get(name)
@@ -58,6 +59,10 @@ def verify_functions(keys, *, prop=None, repo='/repo', scope=None, timeout_ms=10
                                                     instances=u.instances, model='', reason='obligation only reached in unbounded pass')
             out['houdini'].update(e1.houdini)
             out['covers'][fkey] = all(ok for k, ok in e1.covers if k == fkey)
+            rec['cover'] = out['covers'][fkey]
+            # must-fail canary: `False` at the function's exits must NOT be provable on at least one exit
+            rec['canary'] = 'discharged' if (e1.canary and all(x == 'discharged' for x in e1.canary)) or not e1.canary else 'refuted'
+            rec['exits'] = len(e1.canary)
             for k, v in e1.trusted_uses.items():
                 out['trusted_uses'][k] = out['trusted_uses'].get(k, 0) + v
             out['solver_time'] += e1.solver_time + e2.solver_time
@@ -70,9 +75,46 @@ def verify_functions(keys, *, prop=None, repo='/repo', scope=None, timeout_ms=10
     return out
 
 
-def install_axioms(e: Exec):
-    """Closed spec axioms (trusted, listed in evidence) become part of every query."""
-    from .engine import State
+def install_axioms(e: Exec, lemma_results=None):
+    """Closed spec axioms (trusted, listed in evidence) become part of every query.  Defined functions get their
+    definitional axiom (unbounded mode) and their lemmas, each of which is first proved from the definition alone."""
+    import z3
+    from .engine import State, Evaluator
+    from .ty import parse_type, SV
+    import ast as _ast
     st = State()
     for cl in e.R.axioms:
         e.ctx.axioms.append(e.eval_clause(st, cl, {}))
+    if e.ctx.finite:
+        return
+    for nm, d in e.R.deffuncs.items():
+        pts = [parse_type(t) for t in d['params'].values()]
+        rt = parse_type(d['res'])
+        names = list(d['params'])
+
+        def defn(*ks):
+            args = [SV(t, k) for t, k in zip(pts, ks)]
+            app = e.apply_func(nm, args, rt, pts)
+            e.inline_deffuncs = True
+            try:
+                body = e.eval_spec_in(st, d['body'], dict(zip(names, args)))
+            finally:
+                e.inline_deffuncs = False
+            if rt.k in ('set', 'list'):
+                return e.ctx.forall([rt.args[0]], lambda x: z3.Select(app.z, x) == z3.Select(body.z, x))
+            return e.ctx.eq(rt, app.z, body.z)
+        definition = e.ctx.forall(pts, defn)
+        for lm in d['lemmas']:
+            f = e.eval_clause(st, lm, {})
+            s = z3.Solver()
+            s.set('timeout', 20000)
+            for a in e.ctx.axioms:
+                s.add(a)
+            s.add(definition)
+            s.add(z3.Not(f))
+            r = s.check()
+            if lemma_results is not None:
+                lemma_results[f'lemma:{nm}/{lm.label()}'] = str(r)
+            if r == z3.unsat:
+                e.ctx.axioms.append(f)
+        e.ctx.axioms.append(definition)
